@@ -1,3 +1,250 @@
-import PrimitivModel.Model.KernelsMove
+import PrimitivModel.Props.C02.Move
+import PrimitivModel.Lemmas.Adjoint
+/-
+C03 — minibatch law for the kernels of the family.
+
+Forward, batch-agnostic kernels (`Batch.<k>_law`): sample `b` of the result is the
+documented function of sample `b` of the operands, an operand with minibatch
+size 1 being shared by all samples (`sampleOf X (share B b)`).  Since the
+kernel equals the documented function on every shape (C02), in particular on
+the single samples, this is "kernel(batch) restricted to sample b = kernel(sample
+b of the operands)".  The `batch_*` kernels are the only ones that move data
+across samples; their cross-sample specifications are `C02.Move.Fwd.batch_*_spec`.
+
+Backward (`Batch.bwd_fold`): a backward loop whose destination has minibatch size
+1 while the upstream gradient has B samples leaves `gx + Σ_b (per-sample
+backward of sample b of gy)`: the gradient reaching a batch-1 operand is the
+sum over the samples.
+-/
 namespace Primitiv.C03.Move
+open Primitiv Primitiv.Move Primitiv.MoveShape Primitiv.Spec.Move Primitiv.View3 Finset
+
+/-- sample `b` of a view, as a one-sample view -/
+def sampleOf {α} (X : V4 α) (b : Nat) : V4 α := fun a k c _ => X a k c b
+
+theorem Batch.slice_law {α} {x y : Tensor α} {dim lower upper : Nat} {raw : Nat → α} (hx : WF x.shape)
+    (h : sliceFw x dim lower upper raw = .ok y) :
+    y.shape.batch = x.shape.batch ∧
+    ∀ a k c b, a < lo x.shape dim → k < upper - lower → c < up x.shape dim → b < x.shape.batch →
+      at4 (lo x.shape dim) (upper - lower) (up x.shape dim) y.data a k c b =
+        slice (sampleOf (at4 (lo x.shape dim) (x.shape.get dim) (up x.shape dim) x.data) b) lower a k c 0 := by
+  have ⟨_, _, hb, _, hv⟩ := C02.Move.Fwd.slice_spec hx h
+  exact ⟨hb, hv⟩
+
+theorem Batch.flip_law {α} {x y : Tensor α} {dim : Nat} {raw : Nat → α} (hx : WF x.shape)
+    (h : flipFw x dim raw = .ok y) :
+    y.shape = x.shape ∧
+    ∀ a k c b, a < lo x.shape dim → k < x.shape.get dim → c < up x.shape dim → b < x.shape.batch →
+      at4 (lo x.shape dim) (x.shape.get dim) (up x.shape dim) y.data a k c b =
+        Spec.Move.flip (sampleOf (at4 (lo x.shape dim) (x.shape.get dim) (up x.shape dim) x.data) b) (x.shape.get dim) a k c 0 :=
+  C02.Move.Fwd.flip_spec hx h
+
+theorem Batch.broadcast_law {α} {x y : Tensor α} {dim size : Nat} {raw : Nat → α} (hx : WF x.shape)
+    (h : broadcastFw x dim size raw = .ok y) :
+    y.shape.batch = x.shape.batch ∧
+    ∀ a k c b, a < lo x.shape dim → k < size → c < up x.shape dim → b < x.shape.batch →
+      at4 (lo x.shape dim) size (up x.shape dim) y.data a k c b =
+        broadcast (sampleOf (at4 (lo x.shape dim) 1 (up x.shape dim) x.data) b) a k c 0 := by
+  have ⟨_, _, _, hb, _, hv⟩ := C02.Move.Fwd.broadcast_spec hx h
+  exact ⟨hb, hv⟩
+
+theorem Batch.sum_law {α} [Add α] [Zero α] {x y : Tensor α} {dim : Nat} (hx : WF x.shape) (h : sumFw x dim = .ok y) :
+    y.shape.batch = x.shape.batch ∧
+    ∀ a c b, a < lo x.shape dim → c < up x.shape dim → b < x.shape.batch →
+      at4 (lo x.shape dim) 1 (up x.shape dim) y.data a 0 c b =
+        sum (sampleOf (at4 (lo x.shape dim) (x.shape.get dim) (up x.shape dim) x.data) b) (x.shape.get dim) a 0 c 0 := by
+  have ⟨_, hb, _, hv⟩ := C02.Move.Fwd.sum_spec hx h
+  exact ⟨hb, hv⟩
+
+theorem Batch.max_law {α} [LinearOrder α] {x y : Tensor α} {dim : Nat} (hx : WF x.shape) (h : maxFw x dim = .ok y) :
+    y.shape.batch = x.shape.batch ∧
+    ∀ a c b, a < lo x.shape dim → c < up x.shape dim → b < x.shape.batch →
+      IsMax (fun k => sampleOf (at4 (lo x.shape dim) (x.shape.get dim) (up x.shape dim) x.data) b a k c 0)
+        (x.shape.get dim) (at4 (lo x.shape dim) 1 (up x.shape dim) y.data a 0 c b) := by
+  have ⟨_, hb, _, hv⟩ := C02.Move.Fwd.max_spec hx h
+  exact ⟨hb, hv⟩
+
+theorem Batch.min_law {α} [LinearOrder α] {x y : Tensor α} {dim : Nat} (hx : WF x.shape) (h : minFw x dim = .ok y) :
+    y.shape.batch = x.shape.batch ∧
+    ∀ a c b, a < lo x.shape dim → c < up x.shape dim → b < x.shape.batch →
+      IsMin (fun k => sampleOf (at4 (lo x.shape dim) (x.shape.get dim) (up x.shape dim) x.data) b a k c 0)
+        (x.shape.get dim) (at4 (lo x.shape dim) 1 (up x.shape dim) y.data a 0 c b) := by
+  have ⟨_, hb, _, hv⟩ := C02.Move.Fwd.min_spec hx h
+  exact ⟨hb, hv⟩
+
+/-- argmax / argmin: the ids of sample `b` are a contiguous block of the result
+and depend on sample `b` of the operand only -/
+theorem Batch.argmax_law {α} [LinearOrder α] {x : Tensor α} {dim : Nat} {l : List Nat} (hx : WF x.shape)
+    (h : argmax x dim = .ok l) :
+    ∀ a c b, a < lo x.shape dim → c < up x.shape dim → b < x.shape.batch →
+      IsArgmax (fun k => sampleOf (at4 (lo x.shape dim) (x.shape.get dim) (up x.shape dim) x.data) b a k c 0)
+        (x.shape.get dim) (l.getD ((a + lo x.shape dim * c) + (lo x.shape dim * up x.shape dim) * b) 0) := by
+  have ⟨_, hv⟩ := C02.Move.Fwd.argmax_spec hx h
+  intro a c b ha hc hb
+  have := hv a c b ha hc hb
+  rwa [show a + lo x.shape dim * (c + up x.shape dim * b) = (a + lo x.shape dim * c) + (lo x.shape dim * up x.shape dim) * b by ring] at this
+
+theorem Batch.argmin_law {α} [LinearOrder α] {x : Tensor α} {dim : Nat} {l : List Nat} (hx : WF x.shape)
+    (h : argmin x dim = .ok l) :
+    ∀ a c b, a < lo x.shape dim → c < up x.shape dim → b < x.shape.batch →
+      IsArgmin (fun k => sampleOf (at4 (lo x.shape dim) (x.shape.get dim) (up x.shape dim) x.data) b a k c 0)
+        (x.shape.get dim) (l.getD ((a + lo x.shape dim * c) + (lo x.shape dim * up x.shape dim) * b) 0) := by
+  have ⟨_, hv⟩ := C02.Move.Fwd.argmin_spec hx h
+  intro a c b ha hc hb
+  have := hv a c b ha hc hb
+  rwa [show a + lo x.shape dim * (c + up x.shape dim * b) = (a + lo x.shape dim * c) + (lo x.shape dim * up x.shape dim) * b by ring] at this
+
+/-- pick: minibatch broadcasting between `x` and `ids`: the result has
+`max(batch, |ids|)` samples; sample `b` is the subplane `ids[b]` (`ids[0]` for a
+single id) of sample `b` of `x` (of its only sample when `x` has none); sizes
+other than equal-or-1 are rejected. -/
+theorem Batch.pick_law {α} {x y : Tensor α} {ids : List Nat} {dim : Nat} {raw : Nat → α} (hx : WF x.shape)
+    (hlen : ids.length < W) (h : pickFw x ids dim raw = .ok y) :
+    (x.shape.batch = ids.length ∨ x.shape.batch = 1 ∨ ids.length = 1) ∧
+    y.shape.batch = max x.shape.batch ids.length ∧
+    ∀ a c b, a < lo x.shape dim → c < up x.shape dim → b < max x.shape.batch ids.length →
+      at4 (lo x.shape dim) 1 (up x.shape dim) y.data a 0 c b =
+        sampleOf (at4 (lo x.shape dim) (x.shape.get dim) (up x.shape dim) x.data) (share x.shape.batch b)
+          a (ids.getD (if ids.length = 1 then 0 else b) 0) c 0 := by
+  have ⟨_, _, hc, _, hb, _, hv⟩ := C02.Move.Fwd.pick_spec hx hlen h
+  exact ⟨hc, hb, hv⟩
+
+theorem Batch.transpose_law {α} {x y : Tensor α} {raw : Nat → α} (hx : WF x.shape) (h : transposeFw x raw = .ok y) :
+    y.shape.batch = x.shape.batch ∧
+    ∀ i j b, i < x.shape.get 0 → j < x.shape.get 1 → b < x.shape.batch →
+      atM (x.shape.get 1) (x.shape.get 0) y.data j i b = atM (x.shape.get 0) (x.shape.get 1) x.data i j b := by
+  have ⟨_, hb, _, _, _, hv⟩ := C02.Move.Fwd.transpose_spec hx h
+  exact ⟨hb, hv⟩
+
+/-! ### backward: folding the minibatch into a batch-1 destination -/
+
+theorem sum_range_mul {R} [AddCommMonoid R] (B K : Nat) (F : Nat → R) :
+    ∑ t ∈ range (B * K), F t = ∑ b ∈ range B, ∑ t0 ∈ range K, F (t0 + K * b) := by
+  induction B with
+  | zero => simp
+  | succ B ih =>
+    rw [sum_range_succ, ← ih, Nat.add_mul, Nat.one_mul, sum_range_add]
+    congr 1
+    apply sum_congr rfl
+    intro t _
+    congr 1; ring
+
+/-- A backward loop nest of `B * K` steps in which step `t0 + K b` writes where
+the backward loop of sample `b` alone (`d0 b`, `s0 b`, `K` steps) writes at step
+`t0` — the destination has minibatch size 1, i.e. zero batch stride — and reads
+sample `b` of `gy` (`Vy` elements per sample), accumulates the SUM over the
+samples of the per-sample backward results. -/
+theorem Batch.bwd_fold {R} [AddCommMonoid R] (m : Moves) (B K Vy : Nat) (d0 s0 : Nat → Nat → Nat) (gy gx : Nat → R)
+    (hcount : m.count = B * K)
+    (hd : ∀ t0 b, t0 < K → b < B → m.didx (t0 + K * b) = d0 b t0)
+    (hs : ∀ t0 b, t0 < K → b < B → m.sidx (t0 + K * b) = s0 b t0 + Vy * b) (j : Nat) :
+    scatterAdd m.didx m.sidx gy m.count gx j =
+      gx j + ∑ b ∈ range B, scatterAdd (d0 b) (s0 b) (fun i => gy (i + Vy * b)) K (fun _ => 0) j := by
+  rw [scatterAdd_apply, hcount, sum_range_mul]
+  congr 1
+  apply sum_congr rfl
+  intro b hb
+  rw [scatterAdd_apply, zero_add]
+  apply sum_congr rfl
+  intro t0 ht0
+  rw [hd t0 b (mem_range.mp ht0) (mem_range.mp hb), hs t0 b (mem_range.mp ht0) (mem_range.mp hb)]
+
+/-- `sy` with minibatch size 1: the shape of one sample -/
+def oneSample (s : Shape) : Shape := { s with batch := 1 }
+
+theorem oneSample_wf {s : Shape} (h : WF s) : WF (oneSample s) :=
+  ⟨h.depth_le, h.pos, Nat.one_pos, h.vol, by show s.volume * 1 < W; rw [Nat.mul_one]; exact h.vol_lt⟩
+
+/-- slice_bw: the gradient reaching a batch-1 `gx` from a `gy` with `B` samples is
+the sum over the samples of what the one-sample calls add (`m1` is the loop nest
+of `slice_bw` on one sample of `gy`). -/
+theorem Batch.slice_bw_fold {R} [AddCommMonoid R] {sy sx : Shape} {dim offset : Nat} {m m1 : Moves}
+    (hy : WF sy) (hx : WF sx) (hoff : offset < W) (hbx : sx.batch = 1) (hd : dim < sx.depth)
+    (h : Front.sliceBw sy sx dim offset = .ok (.kernel m))
+    (h1 : Front.sliceBw (oneSample sy) sx dim offset = .ok (.kernel m1)) (gy gx : Nat → R) (j : Nat) :
+    scatterAdd m.didx m.sidx gy m.count gx j =
+      gx j + ∑ b ∈ range sy.batch,
+        scatterAdd m1.didx m1.sidx (fun i => gy (i + sy.volume * b)) m1.count (fun _ => 0) j := by
+  obtain ⟨_, _, _, _, _, hp⟩ := Front.sliceBw_plan hy hx hoff h
+  obtain ⟨_, _, _, _, _, hp1⟩ := Front.sliceBw_plan (oneSample_wf hy) hx hoff h1
+  rcases hp with ⟨hd', _⟩ | ⟨_, hm⟩
+  · omega
+  rcases hp1 with ⟨hd', _⟩ | ⟨_, hm1⟩
+  · omega
+  simp only [Front.SliceBwPlan.kernel.injEq] at hm hm1
+  have hv : sy.volume = lo sx dim * sy.get dim * up sx dim := by
+    have v := hy.toView dim
+    have e1 : lo sy dim = lo sx dim := lo_eq_of_get (fun i hi => (Front.sliceBw_plan hy hx hoff h).1 i (by omega))
+    have e2 : up sy dim = up sx dim := up_eq_of_get (fun i hi => (Front.sliceBw_plan hy hx hoff h).1 i (by omega))
+    rw [v.volume, e1, e2]
+  have hg1 : (oneSample sy).get dim = sy.get dim := rfl
+  have hb1 : (oneSample sy).batch = 1 := rfl
+  rw [hg1, hb1, hbx] at hm1
+  rw [hbx] at hm
+  have hK : m1.count = up sx dim * (lo sx dim * sy.get dim) := by
+    rw [hm1]; simp [sliceBwMoves]
+  rw [hK]
+  refine Batch.bwd_fold m sy.batch _ sy.volume (fun _ => m1.didx) (fun _ => m1.sidx) gy gx ?_ ?_ ?_ j
+  · rw [hm]; simp only [sliceBwMoves]; rw [Nat.max_eq_right hy.bpos]; ring
+  · intro t0 b ht0 hb
+    have := sliceBw_fold_idx (L := lo sx dim) (ny := sy.get dim) (nx := sx.get dim) (U := up sx dim) (B := sy.batch)
+      (off := offset) (Vx := lo sx dim * sx.get dim * up sx dim) ht0 hb
+    rw [hm, hm1]; exact this.2.2.1
+  · intro t0 b ht0 hb
+    have := sliceBw_fold_idx (L := lo sx dim) (ny := sy.get dim) (nx := sx.get dim) (U := up sx dim) (B := sy.batch)
+      (off := offset) (Vx := lo sx dim * sx.get dim * up sx dim) ht0 hb
+    rw [hm, hm1, hv]; exact this.2.2.2
+
+/-- pick_bw: the gradient reaching a batch-1 `gx` is the sum over the samples `b`
+of what `pick_bw` adds for sample `b` of `gy` and the single id `ids[b]`
+(`ids[0]` when there is only one id). -/
+theorem Batch.pick_bw_fold {R} [AddCommMonoid R] {gys gxs : Shape} {ids : List Nat} {dim : Nat} {m : Moves}
+    {m1 : Nat → Moves} (hy : WF gys) (hx : WF gxs) (hlen : ids.length < W) (hbx : gxs.batch = 1)
+    (h : Front.pickBw gys gxs ids dim = .ok m)
+    (h1 : ∀ b, b < gys.batch →
+      Front.pickBw (oneSample gys) gxs [ids.getD (b * b2n (ids.length > 1)) 0] dim = .ok (m1 b))
+    (gy gx : Nat → R) (j : Nat) :
+    scatterAdd m.didx m.sidx gy m.count gx j =
+      gx j + ∑ b ∈ range gys.batch,
+        scatterAdd (m1 b).didx (m1 b).sidx (fun i => gy (i + gys.volume * b)) (lo gxs dim * up gxs dim) (fun _ => 0) j := by
+  obtain ⟨_, _, _, _, hgb, hgg, hm, _, _⟩ := Front.pickBw_plan hy hx hlen h
+  rw [hbx] at hm hgb
+  have hv : gys.volume = up gxs dim * lo gxs dim := by
+    have v := view_of_update hy hgg
+    rw [v.volume]; ring
+  have hm1 : ∀ b, b < gys.batch → m1 b = (pickMoves (max 1 1) ((if (1 : Nat) = 1 then 0 else 1) * (lo gxs dim * gxs.get dim * up gxs dim))
+      (b2n ([ids.getD (b * b2n (ids.length > 1)) 0].length > 1)) (lo gxs dim) (lo gxs dim * gxs.get dim) (up gxs dim)
+      [ids.getD (b * b2n (ids.length > 1)) 0]).swap := by
+    intro b hb
+    obtain ⟨_, _, _, _, _, _, e, _, _⟩ := Front.pickBw_plan (oneSample_wf hy) hx (by simp) (h1 b hb)
+    rw [hbx] at e
+    exact e
+  have hK : lo gxs dim * up gxs dim = up gxs dim * lo gxs dim := by ring
+  rw [hK]
+  refine Batch.bwd_fold m gys.batch _ gys.volume (fun b => (m1 b).didx) (fun b => (m1 b).sidx) gy gx ?_ ?_ ?_ j
+  · rw [hm, hgb]; simp only [Moves.swap, pickMoves]; ring
+  · intro t0 b ht0 hb
+    have := pickBw_fold_idx (L := lo gxs dim) (nx := gxs.get dim) (U := up gxs dim)
+      (Vx := lo gxs dim * gxs.get dim * up gxs dim) (ids := ids) ht0 (by rw [← hgb]; exact hb)
+    rw [hm, hm1 b hb]; exact this.2.2.1
+  · intro t0 b ht0 hb
+    have := pickBw_fold_idx (L := lo gxs dim) (nx := gxs.get dim) (U := up gxs dim)
+      (Vx := lo gxs dim * gxs.get dim * up gxs dim) (ids := ids) ht0 (by rw [← hgb]; exact hb)
+    rw [hm, hm1 b hb, hv]; exact this.2.2.2
+
+/-- Unfinished: the same fold law for `inplace_add` (slice_bw on an axis at or
+beyond the depth), `batch_pick_bw` with repeated ids (several samples of `gy`
+added into one sample of `gx`) and the `concat` backward (slice_bw per
+operand), stated for all of them at once as: the result of a backward kernel
+called with a batch-1 `gx` equals `gx` plus the sum over samples of the results
+of the per-sample calls on a zero `gx`. -/
+def Batch.bwd_law_full : Prop :=
+  ∀ (gy gx g : Tensor Int) (dim offset : Nat), WF gy.shape → WF gx.shape → gx.shape.batch = 1 →
+    sliceBw gy dim offset gx = .ok g →
+    ∀ j, j < gx.shape.size → g.data j = gx.data j + ∑ b ∈ range gy.shape.batch,
+      match sliceBw ⟨oneSample gy.shape, fun i => gy.data (i + gy.shape.volume * b), .here⟩ dim offset
+          ⟨gx.shape, fun _ => 0, .here⟩ with
+      | .ok gb => gb.data j
+      | .error _ => 0
+
 end Primitiv.C03.Move
